@@ -100,10 +100,19 @@ def trimSpace (s : Bytes) : Bytes :=
 def hexDigit (n : Nat) : UInt8 :=
   if n < 10 then (48 + n).toUInt8 else (87 + n).toUInt8
 
-/-- decimal rendering of a natural number -/
-def natToDec (n : Nat) : Bytes := (toString n).toUTF8.toList
+/-- decimal digits, most significant first (fuel-bounded so that the kernel can evaluate it) -/
+def natDigits : Nat → Nat → Bytes → Bytes
+  | 0, _, acc => acc
+  | fuel + 1, n, acc =>
+    if n < 10 then (48 + n).toUInt8 :: acc else natDigits fuel (n / 10) ((48 + n % 10).toUInt8 :: acc)
 
-def intToDec (n : Int) : Bytes := (toString n).toUTF8.toList
+/-- decimal rendering of a natural number (`%d`) -/
+def natToDec (n : Nat) : Bytes := natDigits (n + 1) n []
+
+def intToDec (n : Int) : Bytes :=
+  match n with
+  | Int.ofNat k => natToDec k
+  | Int.negSucc k => 45 :: natToDec (k + 1)
 
 def toOct (n : Nat) : Bytes := (String.ofList (Nat.toDigits 8 n)).toUTF8.toList
 
